@@ -39,6 +39,10 @@ def pcCmd (st : State) (toks : List String) : State × String :=
   | ["send", fin, ntf] =>
     let (st', r) := send st (fin = "1") (ntf = "1")
     (st', match r with | some s => s!"serial={s}" | none => "no-pending")
+  | ["dispatch-block", i] =>
+    match i.toNat? with
+    | some i => let (st', waited) := dispatchBlock st i; (st', if waited then "ok" else "ok-nofilter")
+    | none => (st, "bad-op")
   | ["failsend"] =>
     let (st', r) := sendFail st
     (st', match r with | some s => s!"failed serial={s}" | none => "no-pending")
